@@ -54,9 +54,10 @@ func (s *SignedLatency) OnPing(pingReqID uint32) error {
 	}
 
 	s.Iteration--
+	end := time.Now()
 	s.PingRequests[pingReqID] = LatencyMetricsData{
 		Start: pingRequest.Start,
-		End:   time.Now(),
+		End:   end,
 	}
 
 	if s.Iteration > 0 {
@@ -81,7 +82,9 @@ func (s *SignedLatency) OnPing(pingReqID uint32) error {
 		mean += latency
 	}
 	mean = float32(math.Round(float64(mean) / float64(len(s.PingRequests))))
-	last = latencies[len(latencies)-1]
+	// The ping answered just now is the final round. (PingRequests is a map:
+	// the last element of latencies is an arbitrary round.)
+	last = float32(end.Sub(pingRequest.Start).Microseconds())
 
 	sort.Slice(latencies, func(i, j int) bool {
 		return latencies[i] < latencies[j]
